@@ -784,3 +784,610 @@ Proof.
     - split; assumption. }
   exact (proj2 H).
 Qed.
+
+(* ================================================================== *)
+(* 6. TrapNodes, EdgeStrict, NoStubEdges, Rooted                       *)
+(* ================================================================== *)
+
+Lemma TrapNodes_upd : forall N d i f, flag_setter f -> TrapNodes N d -> TrapNodes N (upd_node d i f).
+Proof.
+  intros N d i f Hf Ht. apply TrapNodes_spaces. rewrite spaces_upd_flag by exact Hf.
+  apply TrapNodes_spaces. exact Ht.
+Qed.
+
+Lemma ff_step_TrapNodes : forall N d x, SWF N d -> TrapNodes N d -> x < size d ->
+  TrapNodes N (ff_step N d x).
+Proof.
+  intros N d x Hswf Ht Hx. unfold ff_step.
+  apply (set_empty_seeds_flag (TrapNodes N)); [intros d0 f Hf H0; apply TrapNodes_upd; assumption|].
+  apply TrapNodes_upd; [constructor|].
+  assert (H : SWF N (ensure_all N d x (ff_motifs N (n_space (get d x)))) /\
+              x < size (ensure_all N d x (ff_motifs N (n_space (get d x)))) /\
+              TrapNodes N (ensure_all N d x (ff_motifs N (n_space (get d x))))).
+  { apply (C_ensure_all N x (fun d0 => SWF N d0 /\ x < size d0 /\ TrapNodes N d0)
+             (fun m => length m = nvars N /\ trap_space N m)).
+    - intros d0 m (H1 & H2 & H3) [Hm Htm].
+      destruct (ensure_child_spec N d0 x m H1 Hm H2) as (S1 & S2 & _).
+      split; [exact S1|]. split; [eapply extends_lt; eauto|].
+      apply (proj1 (prim_closed_trap_TrapNodes N)); try assumption.
+      intros p0 Heq. injection Heq as Heq. subst p0. exact H2.
+    - split; [exact Hswf|]. split; assumption.
+    - intros m Hin. split; [eapply ff_motifs_len; eauto|].
+      eapply ff_motif_trap; [|exact Hin]. apply TrapNodes_get; assumption. }
+  apply H.
+Qed.
+
+Theorem expand_block_TrapNodes : forall fuel N cfg d maa opt sz tape, SWF N d -> TrapNodes N d ->
+  TrapNodes N (fst (expand_block fuel N cfg d maa opt sz tape)).
+Proof.
+  intros fuel N cfg d maa opt sz tape Hswf Ht.
+  apply (block_transfer N cfg opt (TrapNodes N)); try assumption.
+  - intros d0 x H1 H2 _ _.
+    apply (expand_one_transfer_trap N (TrapNodes N) (prim_closed_trap_TrapNodes N)); assumption.
+  - intros d0 i _ H2 _ _.
+    apply (set_empty_seeds_flag (TrapNodes N)); [|exact H2].
+    intros d1 f Hf H0. apply TrapNodes_upd; assumption.
+  - intros d0 x _ H1 H2 Hx _ _. apply ff_step_TrapNodes; assumption.
+Qed.
+
+(* the source list is non-empty: every child space of the fast-forward is a strict subspace *)
+Lemma ff_step_EdgeStrict : forall N d x, SWF N d -> EdgeStrict d -> x < size d ->
+  n_exp (get d x) = false -> sources_in_b N (n_space (get d x)) <> [] ->
+  EdgeStrict (ff_step N d x).
+Proof.
+  intros N d x Hswf He Hx Hex Hsrc. unfold ff_step.
+  apply (set_empty_seeds_flag EdgeStrict); [intros d0 f Hf H0; apply EdgeStrict_upd; assumption|].
+  apply EdgeStrict_upd; [constructor|].
+  assert (Hsp : length (n_space (get d x)) = nvars N).
+  { apply (swf_len N d Hswf). apply get_In. exact Hx. }
+  assert (H : ES_inv N x (n_space (get d x)) (ensure_all N d x (ff_motifs N (n_space (get d x))))).
+  { apply (C_ensure_all N x (ES_inv N x (n_space (get d x))) (ES_guard N (n_space (get d x)))).
+    - intros d0 m H0 Hg. apply ES_inv_child; assumption.
+    - split; [exact Hswf|]. split; [exact Hx|]. split; [reflexivity|]. split; assumption.
+    - intros m Hin. apply ff_motif_strict; assumption. }
+  apply H.
+Qed.
+
+Theorem expand_block_EdgeStrict : forall fuel N cfg d maa opt sz tape, SWF N d -> TrapNodes N d ->
+  EdgeStrict d -> EdgeStrict (fst (expand_block fuel N cfg d maa opt sz tape)).
+Proof.
+  intros fuel N cfg d maa opt sz tape Hswf _ He.
+  apply (block_transfer N cfg opt EdgeStrict); try assumption.
+  - intros d0 x H1 H2 _ _. apply expand_one_ES; assumption.
+  - intros d0 i _ H2 _ _.
+    apply (set_empty_seeds_flag EdgeStrict); [|exact H2].
+    intros d1 f Hf H0. apply EdgeStrict_upd; assumption.
+  - intros d0 x _ H1 H2 Hx Hex Hsrc. apply ff_step_EdgeStrict; assumption.
+Qed.
+
+Lemma ff_NSE_inv : forall N d x, SWF N d -> NoStubEdges d -> x < size d ->
+  NSE_inv N x (ensure_all N d x (ff_motifs N (n_space (get d x)))).
+Proof.
+  intros N d x Hswf Hn Hx.
+  apply (C_ensure_all N x (NSE_inv N x) (fun m => length m = nvars N)).
+  - intros d0 m H0 Hm. apply NSE_inv_child; assumption.
+  - split; [exact Hswf|]. split; [exact Hx|]. apply NSE_open. exact Hn.
+  - intros m Hin. eapply ff_motifs_len; eauto.
+Qed.
+
+Lemma ff_step_NoStubEdges : forall N d x, SWF N d -> NoStubEdges d -> x < size d ->
+  NoStubEdges (ff_step N d x).
+Proof.
+  intros N d x Hswf Hn Hx. unfold ff_step.
+  apply (set_empty_seeds_flag NoStubEdges); [intros d0 f Hf H0; apply NoStubEdges_upd; assumption|].
+  apply (NSE_inv_close N x _ (ff_NSE_inv N d x Hswf Hn Hx)).
+Qed.
+
+Theorem expand_block_NoStubEdges : forall fuel N cfg d maa opt sz tape, SWF N d -> NoStubEdges d ->
+  NoStubEdges (fst (expand_block fuel N cfg d maa opt sz tape)).
+Proof.
+  intros fuel N cfg d maa opt sz tape Hswf Hn.
+  apply (block_transfer N cfg opt NoStubEdges); try assumption.
+  - intros d0 x H1 H2 _ _. apply expand_one_NSE; assumption.
+  - intros d0 i _ H2 _ _.
+    apply (set_empty_seeds_flag NoStubEdges); [|exact H2].
+    intros d1 f Hf H0. apply NoStubEdges_upd; assumption.
+  - intros d0 x _ H1 H2 Hx _ _. apply ff_step_NoStubEdges; assumption.
+Qed.
+
+Lemma ff_step_Rooted : forall N d x, SWF N d -> Rooted d -> x < size d -> Rooted (ff_step N d x).
+Proof.
+  intros N d x Hswf Hr Hx. unfold ff_step.
+  apply (set_empty_seeds_flag Rooted); [intros d0 f _ H0; apply prim_Rooted_upd; exact H0|].
+  apply prim_Rooted_upd.
+  apply (C_ensure_all N x Rooted (fun _ => True)).
+  - intros d0 m H0 _. apply prim_Rooted_child. exact H0.
+  - exact Hr.
+  - auto.
+Qed.
+
+Theorem expand_block_Rooted : forall fuel N cfg d maa opt sz tape, SWF N d -> Rooted d ->
+  Rooted (fst (expand_block fuel N cfg d maa opt sz tape)).
+Proof.
+  intros fuel N cfg d maa opt sz tape Hswf Hr.
+  apply (block_transfer N cfg opt Rooted); try assumption.
+  - intros d0 x H1 H2 _ _.
+    assert (H : SWF N (fst (expand_one N cfg d0 x)) /\ Rooted (fst (expand_one N cfg d0 x))).
+    { apply (TT_expand_one N (fun d1 => SWF N d1 /\ Rooted d1)).
+      - intros d1 [K _]. exact K.
+      - apply RI_child.
+      - apply RI_upd.
+      - split; assumption. }
+    exact (proj2 H).
+  - intros d0 i _ H2 _ _.
+    apply (set_empty_seeds_flag Rooted); [|exact H2].
+    intros d1 f _ H0. apply prim_Rooted_upd. exact H0.
+  - intros d0 x _ H1 H2 Hx _ _. apply ff_step_Rooted; assumption.
+Qed.
+
+(* ================================================================== *)
+(* 7. Faithful, without the source shortcut                            *)
+(* ================================================================== *)
+
+Lemma set_empty_seeds_Faithful : forall N d i, Faithful N d -> Faithful N (set_empty_seeds d i).
+Proof.
+  intros N d i H. rewrite set_empty_seeds_unfold. apply Faithful_On.
+  apply FaithfulOn_upd_neutral; [constructor|reflexivity|reflexivity|].
+  apply FaithfulOn_upd_neutral; [constructor|reflexivity|reflexivity|].
+  apply Faithful_On. exact H.
+Qed.
+
+Theorem expand_block_Faithful : forall fuel N cfg d maa sz tape, 1 <= max_motifs cfg -> SWF N d ->
+  NoStubEdges d -> Faithful N d -> Faithful N (fst (expand_block fuel N cfg d maa false sz tape)).
+Proof.
+  intros fuel N cfg d maa sz tape Hmm Hswf Hn Hf.
+  assert (H : NoStubEdges (fst (expand_block fuel N cfg d maa false sz tape)) /\
+              Faithful N (fst (expand_block fuel N cfg d maa false sz tape))).
+  { apply (block_transfer N cfg false (fun d0 => NoStubEdges d0 /\ Faithful N d0)).
+    - intros d0 x H1 [H2 H3] _ _.
+      split; [apply expand_one_NSE; assumption|apply expand_one_Faithful; assumption].
+    - intros d0 i _ [H2 H3] _ _. split; [|apply set_empty_seeds_Faithful; exact H3].
+      apply (set_empty_seeds_flag NoStubEdges); [|exact H2].
+      intros d1 f Hf0 H0. apply NoStubEdges_upd; assumption.
+    - intros d0 x Hopt. discriminate Hopt.
+    - exact Hswf.
+    - split; assumption. }
+  exact (proj2 H).
+Qed.
+
+(* ================================================================== *)
+(* 8. CacheOK                                                          *)
+(* ================================================================== *)
+
+(* The fast-forward overwrites the seeds and sets caches of the node but leaves its cached
+   candidates alone: candidates computed while the node was a stub carry the stub-time tag
+   (no successors), the fast-forwarded node has successors.  CacheOK therefore needs: *)
+Definition NoSrcCands (N : net) (d : sd) : Prop :=
+  forall i, i < size d -> n_exp (get d i) = false ->
+    sources_in_b N (n_space (get d i)) <> [] -> n_cands (get d i) = None.
+
+(* candidates are only ever dropped *)
+Definition cands_le (d d' : sd) : Prop :=
+  forall j, j < size d' ->
+    n_cands (get d' j) = None \/ (j < size d /\ n_cands (get d' j) = n_cands (get d j)).
+
+Lemma cands_le_refl : forall d, cands_le d d.
+Proof. intros d j Hj. right. split; [exact Hj|reflexivity]. Qed.
+
+Lemma cands_le_trans : forall d1 d2 d3, cands_le d1 d2 -> cands_le d2 d3 -> cands_le d1 d3.
+Proof.
+  intros d1 d2 d3 H12 H23 j Hj. destruct (H23 j Hj) as [H|[Hj2 H]]; [left; exact H|].
+  destruct (H12 j Hj2) as [H'|[Hj1 H']]; [left; congruence|right; split; [exact Hj1|congruence]].
+Qed.
+
+Lemma cands_le_upd : forall d i f,
+  (forall y, n_cands (f y) = None \/ n_cands (f y) = n_cands y) -> cands_le d (upd_node d i f).
+Proof.
+  intros d i f Hf j Hj. rewrite size_upd_node in Hj.
+  destruct (get_upd_node_cases d i j f) as [Hg|(_ & _ & Hg)]; rewrite Hg.
+  - right. split; [exact Hj|reflexivity].
+  - destruct (Hf (get d j)) as [H|H]; [left; exact H|right; split; [exact Hj|exact H]].
+Qed.
+
+Lemma cands_le_child : forall N d parent m, cands_le d (fst (ensure_node N d parent m)).
+Proof.
+  intros N d parent m j Hj. destruct (lt_dec j (size d)) as [Hlt|Hge].
+  - right. split; [exact Hlt|].
+    destruct (ensure_node_old N d parent m j Hlt) as (_ & _ & _ & _ & H & _). exact H.
+  - left. apply (ensure_node_new_cleared N d parent m j); [lia|exact Hj].
+Qed.
+
+Lemma cands_le_ensure_all : forall N subs d p, cands_le d (ensure_all N d p subs).
+Proof.
+  intros N subs. induction subs as [|m r IH]; intros d p; [apply cands_le_refl|].
+  rewrite ensure_all_cons. eapply cands_le_trans; [apply cands_le_child|apply IH].
+Qed.
+
+Lemma cands_le_set_empty_seeds : forall d i, cands_le d (set_empty_seeds d i).
+Proof.
+  intros d i. rewrite set_empty_seeds_unfold.
+  eapply cands_le_trans; apply cands_le_upd; intro y; right; reflexivity.
+Qed.
+
+Lemma cands_le_expand_one : forall N cfg d i, cands_le d (fst (expand_one N cfg d i)).
+Proof.
+  intros N cfg d i. destruct (expand_one N cfg d i) as [d' r] eqn:E. simpl.
+  assert (Hclr : forall y, n_cands (clear_attr y) = None \/ n_cands (clear_attr y) = n_cands y)
+    by (intro y; left; reflexivity).
+  assert (Hexp : forall y, n_cands (set_exp y true) = None \/ n_cands (set_exp y true) = n_cands y)
+    by (intro y; right; reflexivity).
+  destruct (expand_one_cases N cfg d i d' r E)
+    as [(_ & A & _)|[(_ & _ & A & _)|[(_ & _ & _ & A & _)|(_ & _ & _ & A & _)]]]; subst d'.
+  - apply cands_le_refl.
+  - eapply cands_le_trans; apply cands_le_upd; assumption.
+  - apply cands_le_upd. exact Hclr.
+  - eapply cands_le_trans; [apply cands_le_upd; exact Hclr|].
+    eapply cands_le_trans; [apply cands_le_ensure_all|apply cands_le_upd; exact Hexp].
+Qed.
+
+Lemma cands_le_ff_step : forall N d x, cands_le d (ff_step N d x).
+Proof.
+  intros N d x. unfold ff_step.
+  apply cands_le_trans with (d2 := ensure_all N d x (ff_motifs N (n_space (get d x))));
+    [apply cands_le_ensure_all|].
+  eapply cands_le_trans; [|apply cands_le_set_empty_seeds].
+  apply cands_le_upd. intro y. right. reflexivity.
+Qed.
+
+Lemma NoSrcCands_transfer : forall N d d', extends d d' -> cands_le d d' ->
+  NoSrcCands N d -> NoSrcCands N d'.
+Proof.
+  intros N d d' He Hc H j Hj Hex Hsrc. destruct (Hc j Hj) as [Hn|[Hjd Hn]]; [exact Hn|].
+  rewrite Hn. apply H; [exact Hjd| |].
+  - destruct (n_exp (get d j)) eqn:E; [|reflexivity].
+    rewrite (extends_exp d d' j He E) in Hex. discriminate Hex.
+  - rewrite <- (extends_space d d' j He Hjd). exact Hsrc.
+Qed.
+
+(* the tag of an unexpanded node does not depend on its out-edges *)
+Lemma cur_tag_unexp : forall d d' j, n_exp (get d j) = false -> n_exp (get d' j) = false ->
+  n_skip (get d' j) = n_skip (get d j) -> cur_tag d' j = cur_tag d j.
+Proof. intros d d' j H1 H2 H3. unfold cur_tag. rewrite H1, H2, H3. reflexivity. Qed.
+
+Lemma CacheOK_child_unexp : forall N d p m, n_exp (get d p) = false -> p < size d -> CacheOK d ->
+  CacheOK (fst (ensure_node N d (Some p) m)).
+Proof.
+  intros N d p m Hex Hp Hc. apply (CacheOK_transfer d); [|exact Hc]. intros j Hj.
+  destruct (lt_dec j (size d)) as [Hlt|Hge].
+  - pose proof (ensure_node_old N d (Some p) m j Hlt) as Hold.
+    right. split; [exact Hlt|]. split; [apply same_cache_mod_depth; exact Hold|].
+    destruct Hold as (_ & He & Hs & _).
+    destruct (Nat.eq_dec j p) as [Heq|Hne].
+    + subst j. apply cur_tag_unexp; [exact Hex|rewrite He; exact Hex|exact Hs].
+    + apply cur_tag_eq; [exact He|exact Hs|]. apply ensure_child_out_other. exact Hne.
+  - left. apply ensure_node_new_cleared; [lia|exact Hj].
+Qed.
+
+(* while the stub p (without cached candidates) receives the fast-forward children *)
+Definition FI (N : net) (p : nat) (d : sd) : Prop :=
+  NSE_inv N p d /\ n_exp (get d p) = false /\ CacheOK d /\ n_cands (get d p) = None.
+
+Lemma FI_child : forall N p d m, FI N p d -> length m = nvars N ->
+  FI N p (fst (ensure_node N d (Some p) m)).
+Proof.
+  intros N p d m (H1 & H2 & H3 & H4) Hm. pose proof H1 as (_ & Hp & _).
+  destruct (ensure_node_old N d (Some p) m p Hp) as (_ & He & _ & _ & Hcd & _).
+  split; [apply NSE_inv_child; assumption|]. split; [rewrite He; exact H2|].
+  split; [apply CacheOK_child_unexp; assumption|]. rewrite Hcd. exact H4.
+Qed.
+
+Lemma ff_close_CacheOK : forall d1 x, x < size d1 -> CacheOK d1 -> n_cands (get d1 x) = None ->
+  CacheOK (set_empty_seeds (upd_node d1 x (fun y => set_exp y true)) x).
+Proof.
+  intros d1 x Hx Hc Hnc. remember (upd_node d1 x (fun y => set_exp y true)) as d2 eqn:Ed2.
+  assert (Hs2 : size d2 = size d1) by (subst d2; apply size_upd_node).
+  rewrite set_empty_seeds_unfold. intros j Hj. rewrite !size_upd_node, Hs2 in Hj.
+  unfold tag_ok. rewrite !cur_tag_upd_cache by constructor.
+  destruct (Nat.eq_dec j x) as [Heq|Hne].
+  - subst j. rewrite get_upd_node_eq by (rewrite size_upd_node, Hs2; exact Hx).
+    rewrite get_upd_node_eq by (rewrite Hs2; exact Hx). simpl.
+    subst d2. rewrite get_upd_node_eq by exact Hx. simpl. rewrite Hnc. auto.
+  - rewrite !get_upd_node_neq by lia. subst d2. rewrite get_upd_node_neq by lia.
+    rewrite cur_tag_upd_other by exact Hne. apply Hc. exact Hj.
+Qed.
+
+Lemma ff_step_CacheOK : forall N d x, SWF N d -> NoStubEdges d -> CacheOK d -> x < size d ->
+  n_exp (get d x) = false -> n_cands (get d x) = None -> CacheOK (ff_step N d x).
+Proof.
+  intros N d x Hswf Hn Hc Hx Hex Hnc. unfold ff_step.
+  assert (H : FI N x (ensure_all N d x (ff_motifs N (n_space (get d x))))).
+  { apply (C_ensure_all N x (FI N x) (fun m => length m = nvars N)).
+    - intros d0 m H0 Hm. apply FI_child; assumption.
+    - split; [|split; [exact Hex|split; assumption]].
+      split; [exact Hswf|]. split; [exact Hx|]. apply NSE_open. exact Hn.
+    - intros m Hin. eapply ff_motifs_len; eauto. }
+  destruct H as ((_ & Hx1 & _) & _ & Hc1 & Hn1). apply ff_close_CacheOK; assumption.
+Qed.
+
+Lemma set_empty_seeds_CacheOK : forall d i, i < size d -> CacheOK d -> CacheOK (set_empty_seeds d i).
+Proof.
+  intros d i Hi Hc. rewrite set_empty_seeds_unfold.
+  apply CacheOK_set_sets; [rewrite size_upd_node; exact Hi|apply tag_ok_cur_upd; constructor|].
+  apply CacheOK_set_seeds; [exact Hi|apply tag_ok_cur|exact Hc].
+Qed.
+
+Theorem expand_block_CacheOK_weak : forall fuel N cfg d maa opt sz tape, SWF N d -> NoStubEdges d ->
+  CacheOK d -> (opt = true -> NoSrcCands N d) ->
+  CacheOK (fst (expand_block fuel N cfg d maa opt sz tape)).
+Proof.
+  intros fuel N cfg d maa opt sz tape Hswf Hn Hc Hnc.
+  assert (H : NoStubEdges (fst (expand_block fuel N cfg d maa opt sz tape)) /\
+              CacheOK (fst (expand_block fuel N cfg d maa opt sz tape)) /\
+              (opt = true -> NoSrcCands N (fst (expand_block fuel N cfg d maa opt sz tape)))).
+  { apply (block_transfer N cfg opt (fun d0 => NoStubEdges d0 /\ CacheOK d0 /\ (opt = true -> NoSrcCands N d0))).
+    - intros d0 x H1 (H2 & H3 & H4) _ _.
+      destruct (expand_one_SNC N cfg d0 x (conj H1 (conj H2 H3))) as (_ & K2 & K3).
+      split; [exact K2|]. split; [exact K3|]. intro Ho.
+      apply (NoSrcCands_transfer N d0); [apply expand_one_extends|apply cands_le_expand_one|auto].
+    - intros d0 i _ (H2 & H3 & H4) Hi _. split; [|split].
+      + apply (set_empty_seeds_flag NoStubEdges); [|exact H2].
+        intros d1 f Hf0 H0. apply NoStubEdges_upd; assumption.
+      + apply set_empty_seeds_CacheOK; assumption.
+      + intro Ho. apply (NoSrcCands_transfer N d0);
+          [apply set_empty_seeds_extends|apply cands_le_set_empty_seeds|auto].
+    - intros d0 x Ho H1 (H2 & H3 & H4) Hx Hex Hsrc. split; [|split].
+      + apply ff_step_NoStubEdges; assumption.
+      + apply ff_step_CacheOK; try assumption. apply (H4 Ho); assumption.
+      + intros _. apply (NoSrcCands_transfer N d0);
+          [apply ff_step_extends|apply cands_le_ff_step|auto].
+    - exact Hswf.
+    - split; [exact Hn|]. split; assumption. }
+  apply H.
+Qed.
+
+(* without the source shortcut no extra hypothesis is needed *)
+Corollary expand_block_CacheOK_noopt : forall fuel N cfg d maa sz tape, SWF N d -> NoStubEdges d ->
+  CacheOK d -> CacheOK (fst (expand_block fuel N cfg d maa false sz tape)).
+Proof.
+  intros fuel N cfg d maa sz tape Hswf Hn Hc. apply expand_block_CacheOK_weak; try assumption.
+  intro H. discriminate H.
+Qed.
+
+(* The counterexample to the unrestricted statement: one variable with the identity update
+   (a source), the root is a stub whose candidates were queried (two candidates, so no seeds
+   are derived), then expand_block with the source shortcut.  All invariants hold before, the
+   strategy reports completion, and the root keeps candidates tagged "no successors" although
+   it now has the two successors [x=0] and [x=1]. *)
+Definition cxc_net : net := [fun s => nth 0 s false].
+Definition cxc_cfg : config := {| max_motifs := 10 |}.
+Definition cxc_sd : sd :=
+  fst (step 0 cxc_net cxc_cfg (init cxc_net) (OCands 0 (OutLen 2 false))).
+
+Theorem expand_block_CacheOK_counterexample :
+  SWF cxc_net cxc_sd /\ NoStubEdges cxc_sd /\ CacheOK cxc_sd /\
+  TrapNodes cxc_net cxc_sd /\ EdgeStrict cxc_sd /\
+  snd (expand_block 5 cxc_net cxc_cfg cxc_sd true true None []) = RBool true /\
+  ~ CacheOK (fst (expand_block 5 cxc_net cxc_cfg cxc_sd true true None [])).
+Proof.
+  destruct (step_SNC 0 cxc_net cxc_cfg (init cxc_net) (OCands 0 (OutLen 2 false)) (init_SNC cxc_net))
+    as (H1 & H2 & H3).
+  split; [exact H1|]. split; [exact H2|]. split; [exact H3|]. split; [|split; [|split]].
+  - apply step_TrapNodes; [apply init_SWF|apply init_TrapNodes].
+  - apply step_EdgeStrict; [apply init_SWF|apply init_TrapNodes|apply init_EdgeStrict].
+  - vm_compute. reflexivity.
+  - intro H.
+    assert (Hs : 0 < size (fst (expand_block 5 cxc_net cxc_cfg cxc_sd true true None [])))
+      by (vm_compute; lia).
+    destruct (H 0 Hs) as (T & _). vm_compute in T. discriminate T.
+Qed.
+
+(* ================================================================== *)
+(* 9. leaves stay minimal trap spaces                                  *)
+(* ================================================================== *)
+
+Lemma LE_inv_child : forall N p d m, LE_inv N p d -> length m = nvars N ->
+  LE_inv N p (fst (ensure_node N d (Some p) m)).
+Proof.
+  intros N p d m [Hn Hl] Hm. split; [apply NSE_inv_child; assumption|].
+  pose proof (ensure_child_out_other N d p m) as Hoo.
+  pose proof (ensure_node_old N d (Some p) m) as Hold.
+  pose proof (ensure_node_new N d (Some p) m) as Hnew.
+  intros j Hne Hmin. apply is_minimal_iff in Hmin. destruct Hmin as [Ho He].
+  rewrite (Hoo j Hne) in Ho.
+  destruct (lt_dec j (size d)) as [Hjd|Hjd].
+  - destruct (Hold j Hjd) as (E1 & E2 & _). rewrite E1. apply Hl; [exact Hne|].
+    apply is_minimal_iff. split; [exact Ho|]. rewrite <- E2. exact He.
+  - exfalso. destruct (lt_dec j (size (fst (ensure_node N d (Some p) m)))) as [Hj1|Hj1].
+    + destruct (Hnew j) as [Hf _]; [lia|exact Hj1|]. congruence.
+    + rewrite get_beyond in He by lia. discriminate He.
+Qed.
+
+Lemma set_empty_seeds_LeafOK : forall N d i, LeafOK N d -> LeafOK N (set_empty_seeds d i).
+Proof.
+  intros N d i H. rewrite set_empty_seeds_unfold.
+  apply LeafOK_upd_neutral; [constructor|reflexivity|].
+  apply LeafOK_upd_neutral; [constructor|reflexivity|exact H].
+Qed.
+
+(* a fast-forwarded node always has out-edges, every other node is left alone *)
+Lemma ff_step_LeafOK : forall N d x, SWF N d -> NoStubEdges d -> LeafOK N d -> x < size d ->
+  LeafOK N (ff_step N d x).
+Proof.
+  intros N d x Hswf Hn Hl Hx. unfold ff_step. apply set_empty_seeds_LeafOK.
+  assert (H : LE_inv N x (ensure_all N d x (ff_motifs N (n_space (get d x))))).
+  { apply (C_ensure_all N x (LE_inv N x) (fun m => length m = nvars N)).
+    - intros d0 m H0 Hm. apply LE_inv_child; assumption.
+    - split; [split; [exact Hswf|split; [exact Hx|apply NSE_open; exact Hn]]|].
+      intros j _ Hmin. apply Hl; [apply is_minimal_valid|]; exact Hmin.
+    - intros m Hin. eapply ff_motifs_len; eauto. }
+  pose proof (ensure_all_nonempty_out N _ d x (ff_motifs_nonempty N (n_space (get d x)))) as Hout.
+  destruct H as [_ Hleaf].
+  intros j _ Hmin. rewrite n_space_upd_flag by constructor.
+  apply is_minimal_iff in Hmin. destruct Hmin as [Ho He].
+  rewrite out_edges_upd_node in Ho.
+  destruct (Nat.eq_dec j x) as [Heq|Hne]; [subst j; contradiction|].
+  rewrite upd_flag_get_other in He by exact Hne.
+  apply Hleaf; [exact Hne|]. apply is_minimal_iff. split; assumption.
+Qed.
+
+(* TrapNodes and NoStubEdges are all the strategy needs to keep LeafOK *)
+Theorem expand_block_LeafOK_strong : forall fuel N cfg d maa opt sz tape, 1 <= max_motifs cfg ->
+  SWF N d -> TrapNodes N d -> NoStubEdges d -> LeafOK N d ->
+  LeafOK N (fst (expand_block fuel N cfg d maa opt sz tape)).
+Proof.
+  intros fuel N cfg d maa opt sz tape Hmm Hswf Ht Hn Hl.
+  assert (H : TrapNodes N (fst (expand_block fuel N cfg d maa opt sz tape)) /\
+              NoStubEdges (fst (expand_block fuel N cfg d maa opt sz tape)) /\
+              LeafOK N (fst (expand_block fuel N cfg d maa opt sz tape))).
+  { apply (block_transfer N cfg opt (fun d0 => TrapNodes N d0 /\ NoStubEdges d0 /\ LeafOK N d0)).
+    - intros d0 x H1 (H2 & H3 & H4) _ _. split; [|split].
+      + apply (expand_one_transfer_trap N (TrapNodes N) (prim_closed_trap_TrapNodes N)); assumption.
+      + apply expand_one_NSE; assumption.
+      + apply expand_one_LeafOK; assumption.
+    - intros d0 i _ (H2 & H3 & H4) _ _. split; [|split].
+      + apply (set_empty_seeds_flag (TrapNodes N)); [|exact H2].
+        intros d1 f Hf H0. apply TrapNodes_upd; assumption.
+      + apply (set_empty_seeds_flag NoStubEdges); [|exact H3].
+        intros d1 f Hf H0. apply NoStubEdges_upd; assumption.
+      + apply set_empty_seeds_LeafOK. exact H4.
+    - intros d0 x _ H1 (H2 & H3 & H4) Hx _ _. split; [|split].
+      + apply ff_step_TrapNodes; assumption.
+      + apply ff_step_NoStubEdges; assumption.
+      + apply ff_step_LeafOK; assumption.
+    - exact Hswf.
+    - split; [exact Ht|]. split; assumption. }
+  apply H.
+Qed.
+
+Theorem expand_block_LeafOK : forall fuel N cfg d maa opt sz tape, 1 <= max_motifs cfg -> SWF N d ->
+  TrapNodes N d -> NoStubEdges d -> EdgeStrict d -> Faithful N d ->
+  n_space (get d 0) = percolate_b N (top_space (nvars N)) -> LeafOK N d ->
+  (opt = true -> forall i, i < size d -> n_exp (get d i) = true -> n_skip (get d i) = false ->
+     canonical N d i \/ out_edges d i <> []) ->
+  LeafOK N (fst (expand_block fuel N cfg d maa opt sz tape)).
+Proof.
+  intros fuel N cfg d maa opt sz tape Hmm Hswf Ht Hn _ _ _ Hl _.
+  apply expand_block_LeafOK_strong; assumption.
+Qed.
+
+(* ================================================================== *)
+(* 10. what replaces Faithful under the source shortcut                *)
+(* ================================================================== *)
+
+(* fast-forwarded nodes are not canonical, but they always have out-edges *)
+Definition CanonOrOut (N : net) (d : sd) : Prop :=
+  forall i, i < size d -> n_exp (get d i) = true -> n_skip (get d i) = false ->
+    canonical N d i \/ out_edges d i <> [].
+
+Lemma Faithful_CanonOrOut : forall N d, Faithful N d -> CanonOrOut N d.
+Proof. intros N d H i Hi He Hs. left. apply H; assumption. Qed.
+
+Lemma CanonOrOut_grow : forall N d d' x, size d <= size d' ->
+  (forall j, j < size d -> j <> x ->
+     out_edges d' j = out_edges d j /\ n_space (get d' j) = n_space (get d j) /\
+     n_exp (get d' j) = n_exp (get d j) /\ n_skip (get d' j) = n_skip (get d j)) ->
+  (forall j, size d <= j -> j < size d' -> n_exp (get d' j) = false) ->
+  (x < size d -> n_exp (get d' x) = true -> n_skip (get d' x) = false ->
+     canonical N d' x \/ out_edges d' x <> []) ->
+  CanonOrOut N d -> CanonOrOut N d'.
+Proof.
+  intros N d d' x Hsz Hold Hnew Hx H j Hj He Hs.
+  destruct (lt_dec j (size d)) as [Hlt|Hge]; [|rewrite Hnew in He by lia; discriminate He].
+  destruct (Nat.eq_dec j x) as [Heq|Hne]; [subst j; apply Hx; assumption|].
+  destruct (Hold j Hlt Hne) as (A1 & A2 & A3 & A4). rewrite A3 in He. rewrite A4 in Hs.
+  destruct (H j Hlt He Hs) as [Hc|Ho].
+  - left. apply (canonical_same N d); assumption.
+  - right. rewrite A1. exact Ho.
+Qed.
+
+Lemma get_set_empty_seeds_other : forall d i j, j <> i -> get (set_empty_seeds d i) j = get d j.
+Proof. intros d i j Hne. rewrite set_empty_seeds_unfold, !get_upd_node_neq by lia. reflexivity. Qed.
+
+Lemma CanonOrOut_neutral : forall N d d', size d' = size d -> sd_edges d' = sd_edges d ->
+  (forall j, n_space (get d' j) = n_space (get d j) /\ n_exp (get d' j) = n_exp (get d j) /\
+             n_skip (get d' j) = n_skip (get d j)) ->
+  CanonOrOut N d -> CanonOrOut N d'.
+Proof.
+  intros N d d' Hsz Hed Hn H. apply (CanonOrOut_grow N d d' (size d)); [lia| | | |exact H].
+  - intros j _ _. split; [apply out_edges_same_edges; exact Hed|apply Hn].
+  - intros j H1 H2. lia.
+  - intro H0. lia.
+Qed.
+
+Lemma set_empty_seeds_CanonOrOut : forall N d i, CanonOrOut N d -> CanonOrOut N (set_empty_seeds d i).
+Proof.
+  intros N d i H. apply (CanonOrOut_neutral N d); [apply size_set_empty_seeds|apply sd_edges_set_empty_seeds| |exact H].
+  intro j. rewrite set_empty_seeds_unfold.
+  destruct (get_upd_node_cases (upd_node d i (fun y => set_seeds y (Some (cur_tag d i)))) i j
+              (fun y => set_sets y (Some (cur_tag d i)))) as [Hg|(_ & _ & Hg)]; rewrite Hg; simpl;
+  destruct (get_upd_node_cases d i j (fun y => set_seeds y (Some (cur_tag d i)))) as [Hg2|(_ & _ & Hg2)];
+    rewrite Hg2; simpl; auto.
+Qed.
+
+Lemma expand_one_CanonOrOut : forall N cfg d i, 1 <= max_motifs cfg -> SWF N d -> NoStubEdges d ->
+  i < size d -> CanonOrOut N d -> CanonOrOut N (fst (expand_one N cfg d i)).
+Proof.
+  intros N cfg d i Hmm Hswf Hn Hi H.
+  pose proof (expand_one_extends N cfg d i) as Hext.
+  pose proof (expand_one_new_unexp N cfg d i) as Hnew.
+  destruct (expand_one N cfg d i) as [d' r] eqn:E. simpl in Hext, Hnew |- *.
+  pose proof (expand_one_canonical N cfg d i d' Hswf Hn Hi) as Hcan.
+  destruct (expand_one_cases N cfg d i d' r E)
+    as [(_ & A & _)|[(Hex & _ & _ & Hr)|[(_ & _ & _ & A & _)|(Hex & _ & _ & _ & Hr)]]].
+  - subst d'. exact H.
+  - subst r. destruct (Hcan Hex Hmm E) as (_ & _ & Hc & Hoth).
+    apply (CanonOrOut_grow N d d' i); [apply extends_size; exact Hext| | | |exact H].
+    + intros j Hj Hne. destruct (Hoth j Hj Hne) as (B1 & B2 & B3).
+      split; [exact B1|]. split; [apply (extends_space d d' j Hext Hj)|]. split; assumption.
+    + intros j Hj _. apply Hnew. exact Hj.
+    + intros _ _ _. left. exact Hc.
+  - subst d'. apply (CanonOrOut_neutral N d); [apply size_upd_node|apply sd_edges_upd_node| |exact H].
+    intro j. destruct (get_upd_node_cases d i j clear_attr) as [Hg|(_ & _ & Hg)]; rewrite Hg; simpl; auto.
+  - subst r. destruct (Hcan Hex Hmm E) as (_ & _ & Hc & Hoth).
+    apply (CanonOrOut_grow N d d' i); [apply extends_size; exact Hext| | | |exact H].
+    + intros j Hj Hne. destruct (Hoth j Hj Hne) as (B1 & B2 & B3).
+      split; [exact B1|]. split; [apply (extends_space d d' j Hext Hj)|]. split; assumption.
+    + intros j Hj _. apply Hnew. exact Hj.
+    + intros _ _ _. left. exact Hc.
+Qed.
+
+Lemma ff_step_CanonOrOut : forall N d x, x < size d -> CanonOrOut N d -> CanonOrOut N (ff_step N d x).
+Proof.
+  intros N d x Hx H.
+  pose proof (ensure_all_extends N (ff_motifs N (n_space (get d x))) d x) as Hext.
+  apply (CanonOrOut_grow N d (ff_step N d x) x); [apply extends_size; apply ff_step_extends| | | |exact H].
+  - intros j Hj Hne. unfold ff_step. rewrite get_set_empty_seeds_other by exact Hne.
+    rewrite upd_flag_get_other by exact Hne.
+    rewrite (out_edges_same_edges (upd_node (ensure_all N d x (ff_motifs N (n_space (get d x)))) x
+                                            (fun y => set_exp y true)))
+      by apply sd_edges_set_empty_seeds.
+    rewrite out_edges_upd_node. rewrite ensure_all_out_other by exact Hne.
+    destruct (ensure_all_old N (ff_motifs N (n_space (get d x))) d x j Hj) as (A1 & A2 & A3 & _).
+    auto.
+  - intros j Hle Hlt. rewrite size_ff_step in Hlt. unfold ff_step.
+    assert (Hne : j <> x) by lia.
+    rewrite get_set_empty_seeds_other by exact Hne. rewrite upd_flag_get_other by exact Hne.
+    apply (ensure_all_new N _ d x j Hle Hlt).
+  - intros _ _ _. right. unfold ff_step.
+    rewrite (out_edges_same_edges (upd_node (ensure_all N d x (ff_motifs N (n_space (get d x)))) x
+                                            (fun y => set_exp y true)))
+      by apply sd_edges_set_empty_seeds.
+    rewrite out_edges_upd_node. apply ensure_all_nonempty_out. apply ff_motifs_nonempty.
+Qed.
+
+Theorem expand_block_CanonOrOut : forall fuel N cfg d maa opt sz tape, 1 <= max_motifs cfg ->
+  SWF N d -> NoStubEdges d -> CanonOrOut N d ->
+  CanonOrOut N (fst (expand_block fuel N cfg d maa opt sz tape)).
+Proof.
+  intros fuel N cfg d maa opt sz tape Hmm Hswf Hn Hc.
+  assert (H : NoStubEdges (fst (expand_block fuel N cfg d maa opt sz tape)) /\
+              CanonOrOut N (fst (expand_block fuel N cfg d maa opt sz tape))).
+  { apply (block_transfer N cfg opt (fun d0 => NoStubEdges d0 /\ CanonOrOut N d0)).
+    - intros d0 x H1 [H2 H3] Hx _.
+      split; [apply expand_one_NSE; assumption|apply expand_one_CanonOrOut; assumption].
+    - intros d0 i _ [H2 H3] _ _. split; [|apply set_empty_seeds_CanonOrOut; exact H3].
+      apply (set_empty_seeds_flag NoStubEdges); [|exact H2].
+      intros d1 f Hf0 H0. apply NoStubEdges_upd; assumption.
+    - intros d0 x _ H1 [H2 H3] Hx _ _.
+      split; [apply ff_step_NoStubEdges; assumption|apply ff_step_CanonOrOut; assumption].
+    - exact Hswf.
+    - split; assumption. }
+  exact (proj2 H).
+Qed.
+
+Print Assumptions expand_block_SWF.
+Print Assumptions expand_block_CacheOK_weak.
+Print Assumptions expand_block_CacheOK_counterexample.
+Print Assumptions expand_block_terminates.
+Print Assumptions expand_block_Faithful.
+Print Assumptions expand_block_LeafOK.
